@@ -16,6 +16,9 @@ package blockstore
 //@   loop[0] invariant writer_ok [C16]: objinv(b.dataWriter)
 //@   loop[0] invariant open [C04]: !old(b.ronly.closed) && !old(b.finalized)
 //@   call[store.ShouldPut#0] assert options [C04]: arg0 == b.idx && arg1 == c && arg2 == b.opts.MaxIndexCidSize && arg3 == b.opts.StoreIdentityCIDs && arg4 == b.opts.BlockstoreAllowDuplicatePuts && arg5 == b.opts.BlockstoreUseWholeCIDs
+//@   call[store.ShouldPut#0] assert decided_under_write_lock [C08]: held(b.ronly.mu) == 2
+//@   call[util.LdWrite#0] assert written_under_write_lock [C08]: held(b.ronly.mu) == 2
+//@   call[InsertionIndex.InsertNoReplace#0] assert indexed_under_write_lock [C08]: held(b.ronly.mu) == 2
 //@   call[util.LdWrite#0] assert section [C01,C05]: ref(arg0) == ref(b.dataWriter) && len(arg1) == 2 && bytesval(arg1[0]) == cidbytes(c) && ref(arg1[1]) == blockdata(bl)
 //@   call[InsertionIndex.InsertNoReplace#0] assert record [C01,C03,C05]: ref(arg0) == ref(b.idx) && arg1 == c && arg2 == wrap_u64(wrap_s64(athead(0, wn(b.dataWriter)) - wbase(b.dataWriter)))
 //@   call[InsertionIndex.InsertNoReplace#0] assert after_write [C06,C16]: werr == nil
